@@ -122,7 +122,7 @@ func TestC18(t *testing.T) {
 		grace := time.Duration(c.Int("graceSec", 2, 8)) * time.Second
 		cl, err := StartCluster(N, false, func(i int, conf *config.Config) { conf.GracePeriod = grace })
 		if err != nil {
-			c.Fatalf("harness: start cluster: %v", err)
+			c.Harnessf("start cluster: %v", err)
 		}
 		defer cl.Stop()
 		if !cl.WaitMembership(Deadline()) {
@@ -150,7 +150,7 @@ func TestC18(t *testing.T) {
 			}
 			lb, err := NewLB(targets)
 			if err != nil {
-				c.Fatalf("harness: lb: %v", err)
+				c.Harnessf("lb: %v", err)
 			}
 			defer lb.Close()
 			ep := fmt.Sprintf("ep%d", i)
